@@ -31,6 +31,7 @@ pub const PINNED: &[(&str, &str)] = &[
     ("escapes", "\\*not emph\\* and 1\\. x\n\n1\\. not a list\n"),
     ("adjacent-lists", "- a\n\n* b\n"),
     ("dual-dash", "- - item one\n  - item two\n- plain\n"),
+    ("wiki-piped-empty", "see [[n2|]] for more\n"),
     ("adjacent-quotes-in-item", "- a\n\n  > q1\n\n  > q2\n- b\n"),
     ("dashes-open-quote", "> ---\n>\n> > ---\n\n# h\n\n---\n\nlast\n"),
     ("image-in-ref-text", "para\n\n[![alt](i.png) text](n2)\n"),
